@@ -1,4 +1,5 @@
 import Utcp.Props.C11_Bytes
+import Utcp.Props.C11
 /-!
 # C11 at the level of the byte array: a whole bunch, written and read back
 
@@ -47,5 +48,90 @@ theorem write_bunch_bytes (bunch : Bunch) (bits : Bits) (henc : encodeBunch bunc
 
 /-! non-vacuity: a reliable bunch with a 3-bit payload taken from the array `[5]` -/
 example : bitsFrom [5] 0 3 = [true, false, true] := by decide
+
+end Utcp.BB
+
+namespace Utcp.BB
+open Utcp
+
+theorem readInit_num (d : Mem) (ok : Bool) (rb : Buf) (h : readInit d = some (ok, rb)) : rb.num = 0 := by
+  unfold readInit at h
+  split at h
+  · simp at h; rw [← h.2]
+  · cases hr : rd d (d.length - 1) with
+    | none => simp [hr] at h
+    | some last =>
+      simp only [hr, Option.bind_some] at h
+      split at h <;> (simp at h; rw [← h.2])
+
+/-- moving the read cursor forward by `k` bits drops `k` of the remaining bits -/
+theorem rest_skip (b : Buf) (hb : RB b) (h0 : b.num = 0) (k : Nat) (hk : k ≤ b.size) :
+    RB { b with num := k } ∧ rest { b with num := k } = (rest b).drop k := by
+  refine ⟨⟨hb.bytes, hb.size, hk⟩, ?_⟩
+  unfold rest
+  show bitsFrom b.mem k (b.size - k) = (bitsFrom b.mem b.num (b.size - b.num)).drop k
+  rw [h0, Nat.sub_zero]
+  have : b.size = k + (b.size - k) := by omega
+  conv => rhs; rw [this, bitsFrom_append]
+  rw [List.drop_left' (by simp), Nat.zero_add]
+
+/-- **a bunch written on the byte array and read back from the datagram, at any bit offset**: a well-formed bunch is written (header calls, payload run) into a
+zeroed buffer behind `pre.length` bits already there; the buffer is closed (`bitbuf_write_end`) and the datagram — exactly the bytes holding valid bits — is
+opened with `bitbuf_read_init`; the parser, started at bit `pre.length`, touches nothing outside the datagram and its node, returns the bunch as the wire
+carries it (sequence modulo 1024) and stops exactly at the end -/
+theorem bunch_bytes_round_trip (bunch : Bunch) (hwf : WFBunch bunch) (hch : bunch.chIndex < 2 ^ 32) (hname : bunch.nameIndex < 2 ^ 32)
+    (src : Mem) (hsrc : BytesOK src) (hfit : bunch.data.length ≤ 8 * src.length) (hdata : bitsFrom src 0 bunch.data.length = bunch.data)
+    (b : Buf) (hb : WB b) (hroom : b.num + needAll (bunchOps bunch src) + 1 ≤ b.size)
+    (node : Mem) (hnode : BytesOK node) (hlen : 1024 ≤ node.length) :
+    ∃ b1 b2 rb, writeAll (bunchOps bunch src) b = some (true, b1) ∧ writeEnd b1 = some (true, b2) ∧
+      readInit (b2.mem.take ((b2.num + 7) / 8)) = some (true, rb) ∧
+      ∃ rb', lDecodeBunch node { rb with num := b.num } = some (some (wireView bunch), rb') ∧ rb'.num = rb'.size := by
+  obtain ⟨bits, henc, hdec⟩ := Props.C11.decode_encode bunch hwf []
+  obtain ⟨b1, h1, hwb1, hs1, hc1⟩ := write_bunch_bytes bunch bits henc hch hname src hsrc hfit hdata b hb (by omega)
+  have hn1 : b1.num = b.num + bits.length := by
+    have := congrArg List.length hc1
+    unfold content at this
+    simpa using this
+  have hbl : bits.length ≤ needAll (bunchOps bunch src) := by
+    obtain ⟨b1', h1', _, _, _, hle⟩ := writeAll_spec (bunchOps bunch src) b (by
+      intro o ho
+      have hr : bunch.bClose = true → bunch.closeReason < closeReasonMax := fun hc => by
+        have h15 : closeReasonMax = 15 := by decide
+        have := hwf.1
+        rw [hc, if_pos rfl] at this
+        rw [h15]; exact this
+      unfold bunchOps at ho
+      rcases List.mem_append.mp ho with ho | ho
+      · exact headerOps_ok bunch hr hch hname o ho
+      · simp only [List.mem_singleton] at ho; subst ho; exact ⟨hsrc, hfit⟩) hb (by omega)
+    rw [h1] at h1'
+    simp only [Option.some.injEq, Prod.mk.injEq, true_and] at h1'
+    subst h1'
+    omega
+  obtain ⟨b2, h2, hn2, rb, h3, hrb, _, hrest⟩ := finish_then_init b1 hwb1 (by rw [hs1, hn1]; omega)
+  have hnum0 := readInit_num _ _ _ h3
+  have hsize : rb.size = b1.num := by
+    have := congrArg List.length hrest
+    unfold rest content at this
+    simp only [bitsFrom_length] at this
+    omega
+  obtain ⟨hrbk, hrestk⟩ := rest_skip rb hrb hnum0 b.num (by rw [hsize, hn1]; omega)
+  obtain ⟨r, rb', h4, hrb', _, hs', hS⟩ := lDecodeBunch_refines node hnode hlen { rb with num := b.num } hrbk
+  have hbits : rest { rb with num := b.num } = bits ++ [] := by
+    rw [hrestk, hrest, hc1, List.append_nil]
+    have : (content b).length = b.num := by unfold content; simp
+    rw [List.drop_left' this]
+  rw [hbits, hdec] at hS
+  cases r with
+  | none => simp at hS
+  | some v =>
+    simp only [RR.ok.injEq] at hS
+    obtain ⟨hv, hr⟩ := hS
+    refine ⟨b1, b2, rb, h1, h2, h3, rb', by rw [h4, hv], ?_⟩
+    have := congrArg List.length hr
+    unfold rest at this
+    simp only [bitsFrom_length, List.length_nil] at this
+    have := hrb'.num
+    omega
 
 end Utcp.BB
